@@ -252,6 +252,12 @@ def r19_4(ctx, rep):
         raise AnchorLost("spawn_chitchat", "async fn returning ChitchatHandle not found")
     outer = coroutine_of(fx, sp[0]["id"])
     tasks = [c for c in fx.children.get(outer["id"], []) if fx.fns[c].get("coroutine")]
+    if not tasks:
+        # the task body may have been extracted into a private async fn that the spawner calls
+        cgx = callgraph.CallGraph(fx)
+        for h in sorted(getattr(fx, "new_helpers", ())):
+            if fx.fns[h].get("is_async") and any(fx.root_fn(cs.real_caller) == fx.root_fn(outer["id"]) for cs in cgx.callers_of(h, raw=True)):
+                tasks.append(coroutine_of(fx, h)["id"])
     rep.obligation(len(tasks) == 1, "C19/R19.4/task", "expected one spawned task body, found %d" % len(tasks), where(outer))
     n = 0
     for tid in tasks:
@@ -448,7 +454,9 @@ def r19_8(ctx, rep, roles, meths):
                                where(pco, row.site[1]), sample="loop exhausted; every picked dead / seed target attempted")
             elif row.exit == "backedge":
                 g = [e for e in row.calls() if e[1] == gossip]
-                in_target_loop = any(c[0] == "variant" and c[1][0] == "call" and c[1][1].endswith("Iterator>::next") and c[2] == "Some" and c[3] for c in row.cond)
+                # the loop over the selected targets comes after the heartbeat / GC of the round (loops before them build the pools)
+                in_target_loop = any(c[0] == "variant" and c[1][0] == "call" and c[1][1].endswith("Iterator>::next") and c[2] == "Some" and c[3] for c in row.cond) and (
+                    helpers or any(e[1] == hb for e in row.calls()))
                 if in_target_loop:
                     nb += 1
                     rep.obligation(len(g) == 1, "C19/R19.8/target-loop", "a target-loop iteration makes %d gossip calls" % len(g), where(pco, row.site[1]),
